@@ -69,6 +69,10 @@ CHECKS = {
          "Machine-checked proof: frame_row (rows that are not enum-typed variables with a value are unchanged), only_value_changes / table_pointwise (one output row per input row; id, class, name, DataType kept), enum_attached (same integer, the defined string, the enumeration's name), enum_unknown, idempotent_row, xml_same_as_int32; witness of finding D-C17a. Tie: 60 generated documents per quick run (0-3 enumeration types with EnumStrings / EnumValues / no definition; scalar, list and missing values): the Value column after real construction vs the model applied to the parsed tables, plus the property evaluated directly (values, other columns, second application, XML form).",
          "Trusted: Lean kernel, list model of the pandas joins and of xmltodict on EnumValueType bodies, driver, harness, document builder. Graph-level idempotence is checked on the real code; proved at row level.",
          "DESIGN.md section 3 C17"),
+ "C18": ("Lean 4 theorems about a hand model of the namespace-metadata helpers (XML and JSON side-file variants), get_xml_namespaces, exclude_files_not_in_namespaces and the models of the parse output + differential correspondence against /repo",
+         "Machine-checked proof: models_as_declared (parse output lists the declared models, attributes and required models in order, nothing dropped or invented), helpers_agree (the XML and the JSON helper give the same name and the same set whenever a NamespaceUris element exists or the model is the OPC UA one) with helpers_disagree_witness for finding D-C18a, own_and_deps (name is the first model, own URI never among the dependencies, every other listed URI and the OPC UA namespace is), filter_exact / filter_sublist (a file is kept iff one of its model URIs is listed; order kept). Tie: 180 generated documents and 200 (file list, filter) pairs per quick run, both helpers, get_xml_namespaces, the filter and parse_xml_files()['models'] on the real code vs the model, plus the property evaluated directly; headers with comments and ServerUris (fixed defects D-C18b,c) are in the generated stream.",
+         "Trusted: Lean kernel, model of the header pre-processing as the two lines that matter, lxml infoset, driver, harness, document builder.",
+         "DESIGN.md section 3 C18"),
 }
 PENDING_REASON = "check not built yet in this session; planned as a Lean model + correspondence check (DESIGN.md section 3)"
 
